@@ -64,7 +64,10 @@ def print_line(rng, classes, ivals, fvals, drop=False):
     d = ""
     if drop and nconv:
         d = " drop%d" % rng.randrange(nconv)
-    return "print %s %d%s %s" % (rng.choice("SF"), rng.choice([0, 0, 5, 10, 13]), d, " ".join(segs))
+    sink = rng.choice("SF")
+    if sink == "F" and rng.random() < 0.15:
+        d += " stale"                       # a write-only File with a failed, caught read behind it (stdio's sticky error flag)
+    return "print %s %d%s %s" % (sink, rng.choice([0, 0, 5, 10, 13]), d, " ".join(segs))
 
 def print_execs(rng, quick):
     ivals, fvals = vints(rng, 20), vfloats(rng, 20)
@@ -149,9 +152,10 @@ def round_execs(rng, quick):
         strs += [bytes([a, b, c]) for a in alpha for b in alpha for c in alpha]
     else:
         strs += [bytes(rng.choice(alpha) for _ in range(rng.randint(3, 6))) for _ in range(300)]
-    for v in ivals: lines.append("rt %s %d I %d" % (rng.choice("SF"), rng.choice([0, 3, 17]), v))
-    for b in fv: lines.append("rt %s %d F %016x" % (rng.choice("SF"), rng.choice([0, 3, 17]), b))
-    for s in strs: lines.append("rt %s %d S %s" % (rng.choice("SF"), rng.choice([0, 3, 17]), h(s)))
+    el = lambda: " elem" if rng.random() < 0.3 else ""        # read back into an element that lives inside an Array
+    for v in ivals: lines.append("rt %s %d I %d%s" % (rng.choice("SF"), rng.choice([0, 3, 17]), v, el()))
+    for b in fv: lines.append("rt %s %d F %016x%s" % (rng.choice("SF"), rng.choice([0, 3, 17]), b, el()))
+    for s in strs: lines.append("rt %s %d S %s%s" % (rng.choice("SF"), rng.choice([0, 3, 17]), h(s), el()))
     def rng_in(lo, hi, n): return [rng.choice([lo, hi, 0, -1 if lo < 0 else 1, rng.randint(lo, hi)]) for _ in range(n)]
     for _ in range(120 if quick else 1500):
         spec, lo, hi = rng.choice([("li", -2**63, 2**63 - 1), ("lld", -2**63, 2**63 - 1), ("d", -2**31, 2**31 - 1), ("i", -2**31, 2**31 - 1),
